@@ -191,3 +191,43 @@ func placementCase(l *mc.Local, R, C, idx int, ref *placeRef) bool {
 	chk.Violation(key, fmt.Sprintf("mapping matrix %d rows x %d cols, codewords = %s: module (row %d, col %d) is %v, reference %v; the module belongs to %s", R, C, name, badR, badC, got, !got, owner), cs)
 	return true
 }
+
+// foreignPlacements: the FIRST library calls of the process. DefaultPlacement is a public type and
+// is also used for mapping matrices that are not among the 30 ECC 200 ones (the rectangular
+// extension sizes, transposed or experimental shapes). For every ECC 200 mapping matrix R x C, every
+// other even-sided matrix R' x C' with the same number of modules is placed once here, before any
+// ECC 200 placement of the process; nothing of these calls is judged (they are outside the
+// property) - what is judged is every ECC 200 placement that follows them in the same process.
+func foreignPlacements() {
+	done := map[[2]int]bool{}
+	n := 0
+	for _, s := range dm.Symbols {
+		R, C := s.MappingRows(), s.MappingCols()
+		area := R * C
+		for r := 6; r <= area/6; r += 2 {
+			if area%r != 0 || (area/r)%2 != 0 || (r == R && area/r == C) || done[[2]int{r, area / r}] {
+				continue
+			}
+			if _, std := symByMapping(r, area/r); std {
+				continue
+			}
+			done[[2]int{r, area / r}] = true
+			cw := make([]byte, area/8)
+			for i := range cw {
+				cw[i] = byte(i*37 + 11)
+			}
+			mc.Guard(func() { encoder.NewDefaultPlacement(cw, area/r, r).Place() })
+			n++
+		}
+	}
+	chk.Note(fmt.Sprintf("process prologue: %d placements of non-ECC 200 mapping matrices with the module count of an ECC 200 one (every even-sided factorisation) were made before the first judged call; not judged themselves", n))
+}
+
+func symByMapping(r, c int) (dm.Symbol, bool) {
+	for _, s := range dm.Symbols {
+		if s.MappingRows() == r && s.MappingCols() == c {
+			return s, true
+		}
+	}
+	return dm.Symbol{}, false
+}
